@@ -78,7 +78,8 @@ class PickupManager:
         """
         manager = cls(optic)
         for pickup_data in data:
-            manager.add(**pickup_data)
+            # restore without applying: loading must not edit the lens
+            manager.pickups.append(Pickup.from_dict(optic, pickup_data))
         return manager
 
 
